@@ -58,6 +58,12 @@ def make_problem(sp, spec):
         Amat = cplx_randn(rs, (m, n), cplx)
         A = sp.linop.MatMul([n, 1], Amat)
         y = cplx_randn(rs, (m, 1), cplx)
+    elif akind == "highpass":
+        # mean-removing circulant operator: its dominant singular vector is orthogonal to the constant vector, so a power iteration
+        # for the default step size must not start from (a multiple of) ones
+        Amat = (np.eye(n) - 0.6 * np.roll(np.eye(n), 1, axis=0)) + (0j if cplx else 0)
+        A = sp.linop.Identity([n, 1]) - 0.6 * sp.linop.Circshift([n, 1], [1], axes=[0])
+        y = cplx_randn(rs, (n, 1), cplx)
     elif akind == "identity":
         Amat = np.eye(n) + (0j if cplx else 0)
         A = sp.linop.Identity([n, 1])
@@ -600,6 +606,14 @@ def run(ctx):
                     lam=bool(ci % 2), z=False, l1rel=rng.choice([0.55, 0.7, 0.85, 0.97]))
         for solver in ("GradientMethod", "PrimalDualHybridGradient", "ADMM"):
             jobs.append(dict(spec=spec, solver=solver, given=False, xgiven=False))
+    # high-pass operator with DEFAULTED step sizes (MaxEig decides them)
+    for ci in range(ctx.n(3, 16)):
+        n = rng.choice([4, 5, 6, 8])
+        spec = dict(seed=rng.randrange(2 ** 31), n=n, m=n, cplx=bool(ci % 2), akind="highpass", gkind=None, prox=rng.choice([None, "l1", "l2"]),
+                    lam=bool(ci % 2), z=False)
+        for solver in ("GradientMethod", "PrimalDualHybridGradient", "ConjugateGradient", "ADMM"):
+            if model_accepts(solver, spec["prox"] is not None, False):
+                jobs.append(dict(spec=spec, solver=solver, given=False, xgiven=False))
     # data of tiny magnitude, no prox (so the problem is homogeneous): every solver must still reach the optimum
     for ci in range(ctx.n(4, 24)):
         cplx = ci % 3 == 1
